@@ -1100,8 +1100,15 @@ func (i *interpreter) fillRandom(p []value) {
 		if i.symbolicRand {
 			p[k] = unliftV(i.nondet("rand", 8), types.Typ[types.Uint8])
 		} else {
+			// splitmix64: a byte stream without the 256-byte period of a
+			// linear byte counter (equal nonces/keys 256 bytes apart made two
+			// different seals indistinguishable)
 			i.randCtr++
-			p[k] = uint8(i.randCtr*131 + 7)
+			z := uint64(i.randCtr) * 0x9e3779b97f4a7c15
+			z = (z ^ (z >> 30)) * 0xbf58476d1ce4e5b9
+			z = (z ^ (z >> 27)) * 0x94d049bb133111eb
+			z ^= z >> 31
+			p[k] = uint8(z >> 24)
 		}
 	}
 }
